@@ -158,6 +158,16 @@ def minus_can_have_disjoint_domain(group, depth=0):
 def gen_case(rng):
     gen = Q.Gen(rng, dataset=False, rich=rng.random() < 0.3)
     where = gen.group()
+    rel_forced = None
+    if rng.random() < 0.05:
+        # the outermost BGP comes after an operand whose solutions do not carry the variable that initBindings will fix (a sub-select, a group,
+        # a VALUES block on another variable): the initial binding must still constrain that BGP
+        V = lambda n_: ["var", n_]
+        left = rng.choice([["subselect", dict(where=["group", [["bgp", [[V("x"), Q.C(rng.choice(Q.PREDS)), V("v1")]]]]], proj=["x"], distinct=rng.random() < 0.3)],
+                           ["group", [["bgp", [[V("x"), Q.C(rng.choice(Q.PREDS)), V("v1")]]]]],
+                           ["values", ["x"], [[enc(t)] for t in Q.IRIS]]])
+        where = ["group", [left, ["bgp", [[V("x"), Q.C(rng.choice(Q.PREDS)), V("y")]]]]]
+        rel_forced = "init"
     pool_o = Q.IRIS + Q.INTS + Q.STRS + [Literal("UNDEF")]      # a term spelled like the keyword
     triples = sorted({(rng.choice(Q.IRIS), rng.choice(Q.PREDS), rng.choice(pool_o)) for _ in range(rng.randint(5, 14))}, key=str)
     triples2 = sorted({(rng.choice(Q.IRIS), rng.choice(Q.PREDS), rng.choice(pool_o)) for _ in range(rng.randint(3, 10))}, key=str)
@@ -179,7 +189,7 @@ def gen_case(rng):
         A = "?s <urn:e:p> ?o ."; B = "{ SELECT %s WHERE { ?s <urn:e:q> ?x } %s }" % (proj, mods)
         extra = "SELECT * WHERE { %s %s }" % (A, B); extra2 = "SELECT * WHERE { %s %s }" % (B, A)
     return dict(kind="meta", where=where, text=extra, text2=extra2, data=[[enc(x) for x in t] for t in triples], data2=[[enc(x) for x in t] for t in triples2],
-                rel=rng.choice(["perm", "swap", "rename", "spell", "init", "initns", "prep", "store", "store"]), rseed=rng.randrange(1 << 30))
+                rel=rel_forced or rng.choice(["perm", "swap", "rename", "spell", "init", "initns", "prep", "store", "store"]), rseed=rng.randrange(1 << 30))
 
 
 def query_text(where):
